@@ -253,6 +253,12 @@ def known_findings(prop):
     d = json.load(open(p))
     return [e for e in d.get("known", []) if e["property"] == prop]
 
+def pick_hash(i, m, seed):
+    """pseudo-random 1-in-m selection (a stride would correlate with the enumeration order of the generator's case tuples)"""
+    x = (i * 2654435761 + seed * 40503 + 12345) & 0xffffffff
+    x ^= x >> 15; x = (x * 2246822519) & 0xffffffff; x ^= x >> 13
+    return x % m == 0
+
 def seed():
     try: return int(os.environ.get("VERIF_SEED", "1"))
     except ValueError: return 1
